@@ -39,7 +39,10 @@ impl MemoryFS {
     fn ensure_has_parent(files: &HashMap<String, MemoryFile>, path: &str) -> VfsResult<()> {
         let separator = path.rfind('/');
         if let Some(index) = separator {
-            if files.contains_key(&path[..index]) {
+            if let Some(parent) = files.get(&path[..index]) {
+                if parent.file_type != VfsFileType::Directory {
+                    return Err(VfsErrorKind::Other("Parent path is not a directory".into()).into());
+                }
                 return Ok(());
             }
         }
